@@ -1,9 +1,12 @@
 (* C04 - Equilibrium population is the stationary probability vector.
-   Statements only.  Partial: existence/stationarity are certified per case and
-   proved for whatever the model returns; uniqueness of the stationary vector of a
-   matrix with a single closed class (textbook) is stated, not proved. *)
+   Statements only.  Existence/stationarity are certified per case and proved for
+   whatever the model returns; uniqueness is proved for matrices reported ergodic
+   (some power entrywise positive).  Partial: for a reducible matrix whose only
+   closed class is aperiodic the reduction to the restricted matrix (mask = closed
+   class) is compared, not proved; LAPACK's choice in degenerate eigenspaces is
+   only checked relationally. *)
 From Coq Require Import List ZArith Arith Bool QArith Qcanon.
-From MsmV Require Import Lib.Result Lib.PyList Lib.QMat Model.Ergodic Model.Peq Proofs.QMatFacts Proofs.HSFacts Proofs.ErgodicFacts.
+From MsmV Require Import Lib.Result Lib.PyList Lib.QMat Model.Ergodic Model.Peq Proofs.QMatFacts Proofs.HSFacts Proofs.ErgodicFacts Proofs.UniqueFacts Proofs.PeqFacts.
 Import ListNotations.
 Local Open Scope nat_scope.
 
@@ -37,10 +40,22 @@ Theorem peq_strict_rejects : forall T, is_ergodic atol8 T = false -> peq T false
 Proof. intros T He. unfold peq. now rewrite He. Qed.
 Print Assumptions peq_strict_rejects.
 
-(* full statement of the uniqueness used by clause 1 (not proved here) *)
-Definition stationary_unique_full : Prop := forall n T v w,
-  0 < n -> wf n n T -> rows_sum_one T -> entries_nonneg T -> primitive (supp T) ->
-  vmul v T = v -> vmul w T = w -> qsum v = 1%Qc -> qsum w = 1%Qc -> length v = n -> length w = n -> v = w.
+(* uniqueness: a stochastic matrix some power of which is entrywise positive has at most
+   one stationary probability vector ... *)
+Theorem stationary_unique_thm : forall n T k v w, 0 < n -> wf n n T -> length v = n -> length w = n ->
+  (forall i j, i < n -> j < n -> (0 < mget (mpow T k) i j)%Qc) ->
+  (forall x, In x v -> (0 <= x)%Qc) -> (forall x, In x w -> (0 <= x)%Qc) ->
+  qsum v = 1%Qc -> qsum w = 1%Qc -> vmul v T = v -> vmul w T = w -> v = w.
+Proof. exact stationary_unique. Qed.
+Print Assumptions stationary_unique_thm.
+
+(* ... so for a matrix reported ergodic the returned vector is THE unique probability
+   vector pi with pi T = pi *)
+Theorem peq_unique : forall n T allow v w, 0 < n -> wf n n T -> is_ergodic atol8 T = true ->
+  peq T allow = Ok (Some v) -> length v = n -> length w = n ->
+  (forall x, In x w -> (0 <= x)%Qc) -> qsum w = 1%Qc -> vmul w T = w -> v = w.
+Proof. exact peq_is_the_stationary_vector. Qed.
+Print Assumptions peq_unique.
 
 Example peq_example :
   let T := row_normalize (mat_of_Z [[1; 1; 0]; [1; 3; 0]; [1; 1; 2]]%Z) in
